@@ -89,6 +89,16 @@ def run(chk):
                 return f"axes {r.axes}"
             chk.run("C10.R1", f"{PINN_MOD}:PINN.eval_nn", cfg, go, construct="PINN.eval_nn")
 
+    # the wrapper is differentiable with respect to its inputs wherever its value depends on them (the residuals differentiate
+    # through eval_nn, transforms included): no stop_gradient on the inputs
+    def go_diff():
+        from ..alg import jax_jac, pt
+        net, static = mk_pinn(PINN, "statio_PDE", 2, None)
+        params = Params.make(nn_params=Sym('theta'), eq_params={'nu': Sym('nu')})
+        jax_jac(lambda x_: net.eval_nn(x_, params))(pt(2))
+        return "eval_nn can be differentiated with respect to its inputs"
+    chk.run("C10.R1", f"{PINN_MOD}:PINN.eval_nn", {"differentiated_wrt": "inputs"}, go_diff, construct="PINN.eval_nn under differentiation")
+
     # ---------------- R2 dispatch
     for eq_type in ("ODE", "statio_PDE", "nonstatio_PDE"):
         for scalar_t in ((False, True) if eq_type != "statio_PDE" else (False,)):
